@@ -337,3 +337,12 @@ def c34(ctx):
                 "expression at every assignment of the environment set attached to the assumption set (all of whose "
                 "assignments satisfy it); is_polynomial is validated against the structural definition on the dump")
     simple(ctx, "MC_C34", "Trace_C34", floor=0.5)
+
+
+@plan("C38")
+def c38(ctx):
+    ctx.rule = ("TLC enumerates grids (as sequences: the recurrence depends on the order) of 1-5 distinct points out "
+                "of 9 rationals, 6 centres (and a symbolic one) and maximum derivative orders 0-5; TLC validates the "
+                "returned weights against the exactness equations sum_i w[i,k]*(g_i-a)^m = k!*[m=k] for all m < n, "
+                "k <= max order, in exact rational arithmetic")
+    simple(ctx, "MC_C38", "Trace_C38", floor=0.9)
